@@ -679,7 +679,9 @@ class DriverLubaRs232(DriverSerialBase):
             elif self._rx_state == self.ReadState.WAIT_LENGTH:
                 # In the 'WAIT_LENGTH' state the next byte will be the length
                 self._buffer[2] = rx_int
-                if 0 < rx_int < self.MAX_LEN:
+                # The buffer also holds the start, command, length and
+                # checksum bytes, so the payload can be at most MAX_LEN - 4
+                if 0 < rx_int <= self.MAX_LEN - 4:
                     _LOG.trace(f"LUBA payload length: {rx_int}")
                     self._rx_expected_len = rx_int
                     self._rx_state = self.ReadState.LOOP_READ
